@@ -215,6 +215,57 @@ func vc17ChatEv(r api.ChatResponse, reqModel string) vc17Ev {
 	return ev
 }
 
+// vc17CanonJSON re-encodes a JSON text canonically (sorted keys, Go string escaping, last duplicate
+// key wins) WITHOUT interpreting numbers: number literals are kept as written (json.Number).
+func vc17CanonJSON(raw []byte) string {
+	d := json.NewDecoder(bytes.NewReader(raw))
+	d.UseNumber()
+	var v any
+	if err := d.Decode(&v); err != nil {
+		return "?invalid-json:" + string(raw)
+	}
+	if d.More() {
+		return "?trailing-json:" + string(raw)
+	}
+	b, err := json.Marshal(v)
+	if err != nil {
+		return "?" + err.Error()
+	}
+	return string(b)
+}
+
+// the tool calls of a native chat line, taken from the raw bytes (arguments never pass through float64)
+type vc17WireChat struct {
+	Message struct {
+		Role      string `json:"role"`
+		Content   string `json:"content"`
+		ToolCalls []struct {
+			Function struct {
+				Index     int             `json:"index"`
+				Name      string          `json:"name"`
+				Arguments json.RawMessage `json:"arguments"`
+			} `json:"function"`
+		} `json:"tool_calls"`
+	} `json:"message"`
+}
+
+func vc17WireCalls(line []byte) ([]vc17Call, bool) {
+	calls, _, _, ok := vc17WireMsg(line)
+	return calls, ok
+}
+
+func vc17WireMsg(line []byte) ([]vc17Call, string, string, bool) {
+	var w vc17WireChat
+	if err := json.Unmarshal(line, &w); err != nil {
+		return nil, "", "", false
+	}
+	var out []vc17Call
+	for _, tc := range w.Message.ToolCalls {
+		out = append(out, vc17Call{tc.Function.Name, vc17CanonJSON(tc.Function.Arguments), tc.Function.Index})
+	}
+	return out, w.Message.Role, w.Message.Content, true
+}
+
 // one line of a native body (NDJSON line, or the single non-stream JSON body)
 func vc17Native(kind string, line []byte, reqModel string) vc17Ev {
 	var probe map[string]json.RawMessage
@@ -236,10 +287,26 @@ func vc17Native(kind string, line []byte, reqModel string) vc17Ev {
 		return vc17GenEv(r, reqModel)
 	}
 	var r api.ChatResponse
+	lenient := false
 	if err := vc17Strict(line, &r); err != nil {
-		return vc17Ev{tag: "?chat:" + err.Error()}
+		// a number literal that Go's float64 cannot hold is the api type's limit, not a malformed
+		// line: everything else is decoded, the arguments are taken from the raw bytes below
+		var te *json.UnmarshalTypeError
+		if !errors.As(err, &te) || te.Value[:min(6, len(te.Value))] != "number" {
+			return vc17Ev{tag: "?chat:" + err.Error()}
+		}
+		lenient = true // the api type dropped the field holding that number
+		if _, role, content, ok := vc17WireMsg(line); ok {
+			r.Message.Role, r.Message.Content = role, content
+		}
 	}
-	return vc17ChatEv(r, reqModel)
+	ev := vc17ChatEv(r, reqModel)
+	calls, ok := vc17WireCalls(line)
+	if !ok || (!lenient && len(calls) != len(ev.calls)) {
+		return vc17Ev{tag: "?chat-tool-calls"}
+	}
+	ev.calls = calls
+	return ev
 }
 
 type vc17OaCall struct {
@@ -301,7 +368,7 @@ func vc17OaMsgEv(tag string, m *vc17OaMsg, ev *vc17Ev) {
 		if tc.Type != "function" || !strings.HasPrefix(tc.ID, "call_") {
 			ev.tag = "?toolcall"
 		}
-		ev.calls = append(ev.calls, vc17Call{tc.Function.Name, tc.Function.Arguments, tc.Index})
+		ev.calls = append(ev.calls, vc17Call{tc.Function.Name, vc17CanonJSON([]byte(tc.Function.Arguments)), tc.Index})
 	}
 }
 
@@ -1312,11 +1379,50 @@ var vc17Corpus = [][]string{
 	{`{"tool_calls":[`, `{"name":"a","arguments":{"n":{"name":"z","arguments":{}}}}`, `]}`},
 	{"x"},
 	{},
+	// tool-call arguments that do not survive a trip through float64 / are hard to re-encode
+	{`{"name":"get_order",`, `"arguments":{"order_id":`, `9007199254740993}}`},
+	{`{"name":"f","arguments":{"a":-9007199254740993,`, `"b":9223372036854775808,"c":18446744073709551616,`, `"d":123456789012345678901234567890}}`},
+	{`{"name":"f","arguments":{"pi":3.141592653589793238462643383279,`, `"big":1e308,"tiny":1e-400,"nz":-0,"nzf":-0.0,"e":1E+2,"f":1.50}}`},
+	{`{"name":"f","arguments":{"x":1e999}}`},
+	{`{"name":"f","arguments":{"x":1e309}}`, ` and `, `{"name":"g","arguments":{"y":2}}`},
+	{`{"name":"f","arguments":{"o":{"ids":[9007199254740993,1.0000000000000001,`, `{"n":-1e400}],"m":{"k":0.1}},"k":1,"k":2}}`},
+	{`{"name":"f","arguments":{"s":"line\nbreak \"q\" \\ \u00e9 \ud83d\ude00 <tag>&amp; `, "\U0001F600 \u2028 é", `","t":"\u0000\t"}}`},
+	{`{"name":"f","arguments":{"long":"`, strings.Repeat("0123456789abcdef", 160), `","n":12345678901234567890}}`},
 }
 
 var vc17Frags = []string{
 	`{`, `}`, `"name":`, `"a"`, `"b"`, `,`, `"arguments":`, `{}`, ` `, `x`, `[`, `]`, `{"k":1}`, `"`, `\`, "\n",
 	`{"name":"c","arguments":{"q":2}}`, `{"name":"d","arguments":{}}`, `null`, `:`, `hello `, `"name":"e","arguments":{"z":"w"}`,
+}
+
+// JSON values for tool-call arguments that stress number / string re-encoding (ASCII only, so that a
+// text built from them may be cut at any byte)
+var vc17ArgLits = []string{
+	"9007199254740991", "9007199254740992", "9007199254740993", "-9007199254740993", "9223372036854775807",
+	"9223372036854775808", "-9223372036854775809", "18446744073709551615", "18446744073709551616",
+	"123456789012345678901234567890", "0.1", "3.141592653589793238462643383279", "1.0000000000000001", "1.50", "100",
+	"1e2", "1E+2", "1e21", "1e-7", "1e308", "1.7976931348623157e308", "1.7976931348623159e308", "1e309", "1e999", "-1e999",
+	"1e-400", "5e-324", "2.5e-324", "-0", "-0.0", "0e0", "true", "null",
+	`"plain"`, `"esc \\ \" \n \t \u00e9 \ud83d\ude00 \u2028 <&>"`, `"\u0000"`, `""`,
+}
+
+func vc17ArgValue(r *zzverif.Rng, depth int) string {
+	if depth > 0 && r.Chance(1, 4) {
+		n := r.Range(0, 3)
+		parts := make([]string, n)
+		if r.Bool() {
+			for i := range parts {
+				parts[i] = vc17ArgValue(r, depth-1)
+			}
+			return "[" + strings.Join(parts, ",") + "]"
+		}
+		for i := range parts {
+			// keys may repeat (duplicate keys: the last one wins on every path)
+			parts[i] = fmt.Sprintf("%q:%s", zzverif.Pick(r, []string{"k", "id", "n"}), vc17ArgValue(r, depth-1))
+		}
+		return "{" + strings.Join(parts, ",") + "}"
+	}
+	return zzverif.Pick(r, vc17ArgLits)
 }
 
 func vc17RandomText(r *zzverif.Rng, maxPieces int) []string {
@@ -1333,7 +1439,11 @@ func vc17RandomText(r *zzverif.Rng, maxPieces int) []string {
 			if r.Chance(1, 3) {
 				b.WriteString(zzverif.Pick(r, []string{" ", "ok ", "\n", "then "}))
 			}
-			fmt.Fprintf(&b, `{"name":"%s","arguments":{"%s":%d}}`, zzverif.Pick(r, []string{"a", "b", "get_weather"}), zzverif.Pick(r, []string{"x", "city"}), r.Intn(10))
+			val := strconv.Itoa(r.Intn(10))
+			if r.Chance(1, 2) {
+				val = vc17ArgValue(r, 2)
+			}
+			fmt.Fprintf(&b, `{"name":"%s","arguments":{"%s":%s}}`, zzverif.Pick(r, []string{"a", "b", "get_weather"}), zzverif.Pick(r, []string{"x", "city"}), val)
 		}
 		s := b.String()
 		cuts := map[int]bool{}
